@@ -6,15 +6,15 @@ from vlib import cN, cNhex, cbool, cnat, clist
 
 ID = "C15"
 PROPERTIES_V = ["theories/Properties/C15.v"]
-MAKE_TARGETS = ["theories/Properties/C15.vo", "theories/Model/C15Cases.vo"]
+MAKE_TARGETS = ["theories/Properties/C15.vo", "theories/Model/C15Cases.vo", "theories/Model/C15Reorg.vo"]
 HARNESS = "c15"
 CASES_IMPORTS = ("From Coq Require Import NArith ZArith List.\n"
-                 "From Verif Require Import Base.Bytes Model.Oracle Model.C19Cases Model.C15Cases.")
-CASE_TYPE = "case15"
+                 "From Verif Require Import Base.Bytes Model.Oracle Model.C19Cases Model.C15Cases Model.C15Reorg.")
+CASE_TYPE = "case15r"
 # the model compared with the code is the REPAIRED tick (tick_fixed): on the pinned (unrepaired) commit the
 # correspondence breaks on every schedule in which the syncer lags, and spec fails on the lag schedules (finding F3)
-CORR = "corr"
-SPEC = "spec"
+CORR = "corr_any"
+SPEC = "spec_any"
 SHARD = 60
 RULE = ("schedules of oracle ticks against the real AggOracle + real l1infotreesync store: boundary schedules (finalized block 0, "
         "no root at or below the finalized block, syncer far ahead with roots beyond the finalized block, root already on L2, "
@@ -22,11 +22,15 @@ RULE = ("schedules of oracle ticks against the real AggOracle + real l1infotrees
         "ticks behind a finalized block advancing every tick, roots every 1..3 finalized blocks), random schedules with the "
         "syncer mostly behind / mostly ahead / mixed, with and without injected failures of the L1 client, the syncer, "
         "IsGERInjected and InjectGER, for finality FinalizedBlock / SafeBlock / LatestBlock; thorough tier adds all 540 three-tick "
-        "schedules over finalized block 1..3 x syncer position 0..3; a case is non-trivial when the "
+        "schedules over finalized block 1..3 x syncer position 0..3; L1 REORGS between ticks (stream 'reorg': the real processor's Reorg, "
+        "then the new fork's blocks): directed histories (reorg starting exactly at / below / above the block of the newest root the "
+        "syncer holds, the sampled block itself reorganised away while the oracle waits, a failed injection followed by a reorg, a "
+        "reorg from block 1) and random schedules with 1..3 reorgs - for these the correspondence per tick and the safety clause are "
+        "evaluated against the history canonical at each tick; a case is non-trivial when the "
         "implementation injected at least one root or waited at least once for the syncer (ErrBlockNotProcessed); "
         "distinct = distinct schedule")
 ASSUMPTIONS = ["L1 block numbers fit uint64 (header.Number.Uint64())",
-               "the L1 info tree history below a block that had the configured finality when sampled does not change (no reorg below finality)",
+               "liveness clauses: the L1 info tree history below a block that had the configured finality when sampled does not change (no reorg below finality); the safety clauses are proved and checked for histories that change arbitrarily between ticks",
                "the syncer has processed exactly the blocks up to its last processed block (GetLatestInfoUntilBlock's own guard), lpb non-decreasing",
                "one tick is atomic with respect to the syncer and to other L2 writers (ticker timing and goroutines not modelled)",
                "liveness premise (fairness): the syncer eventually reaches every sampled block and no dependency fails in between"]
@@ -49,7 +53,12 @@ def fnum(inp, t):
 
 def coq_case(o):
     i = o["in"]
-    hist = clist(["(%s, %s, %s)" % (cN(l["b"]), cNhex(l["mer"]), cNhex(l["rer"])) for l in (i.get("leaves") or [])])
+    pool = list(i.get("leaves") or [])
+    for t in i.get("ticks") or []:
+        if t.get("reorg"):
+            pool += t["reorg"].get("leaves") or []
+    hists = o.get("hists") or []      # per tick: pool indices of the canonical history (cases with a reorg only)
+    hist = clist(["(%s, %s, %s)" % (cN(l["b"]), cNhex(l["mer"]), cNhex(l["rer"])) for l in pool])
     ticks = []
     obs = o.get("obs") or []
     for k, t in enumerate(i.get("ticks") or []):
@@ -58,14 +67,23 @@ def coq_case(o):
         ob = obs[k]
         tin = ("{| i_F := %s; i_l1err := %s; i_lpb := %s; i_infoerr := %s; i_l2add := %s; i_isinjerr := %s; i_injecterr := %s |}" % (
             cN(fnum(i, t)), cbool(t.get("l1_err") or t.get("l1_err_once")), cN(t["lpb"]), cbool(t.get("info_err")),
-            clist([cnat(x) for x in (t.get("l2_add") or [])]), cbool(t.get("isinj_err")), cbool(t.get("inject_err"))))
+            clist([cnat(l2pos(hists, k, x)) for x in (t.get("l2_add") or [])]), cbool(t.get("isinj_err")), cbool(t.get("inject_err"))))
         tob = ("{| o_tags := %s; o_inj := %s; o_att := %s; o_err := %s; o_target := %s |}" % (
             clist([cZ(x) for x in (ob.get("tags") or [])]), clist([cNhex(x) for x in (ob.get("inj") or [])]),
             clist([cNhex(x) for x in (ob.get("att") or [])]), cN(ERR.get(ob.get("err", ""), 99)), cN(ob["target"])))
         ticks.append("(%s, %s)" % (tin, tob))
-    return ("{| c_tag := %s; c_hist := %s; c_gers := %s; c_l2init := %s; c_ticks := %s; c_harness_err := %s |}" % (
+    base = ("{| c_tag := %s; c_hist := %s; c_gers := %s; c_l2init := %s; c_ticks := %s; c_harness_err := %s |}" % (
         cZ(TAGS.get(i.get("finality"), -3)), hist, clist([cNhex(g) for g in (o.get("gers") or [])]),
         clist([cnat(x) for x in (i.get("l2_init") or [])]), clist(ticks), cbool(bool(o.get("err")))))
+    return "{| r_base := %s; r_hists := %s |}" % (base, clist([clist([cnat(x) for x in h]) for h in hists]))
+
+
+def l2pos(hists, k, x):
+    """l2_add names a leaf of the pool; the model's tick indexes the history canonical at that tick (linear case: the same)."""
+    if not hists:
+        return x
+    h = hists[k] if k < len(hists) else []
+    return h.index(x) if x in h else len(h) + 1000     # not in the canonical history: resolves to nothing
 
 
 def nontrivial_key(o):
@@ -94,6 +112,7 @@ def distribution(outs):
         d[f] = d.get(f, 0) + 1
         if o.get("err"):
             d["harness_errors"] += 1
+        d["reorgs"] = d.get("reorgs", 0) + sum(1 for t in o["in"].get("ticks") or [] if t.get("reorg"))
         for ob in o.get("obs") or []:
             d["ticks"] += 1
             d["injections"] += len(ob.get("inj") or [])
